@@ -7,6 +7,7 @@ use crate::hist::{HistCfg, HistSystem};
 pub mod c01;
 pub mod hist_props;
 pub mod replay;
+pub mod txn_props;
 
 pub fn run(id: &str, tier: Tier) -> i32 {
     match id {
@@ -15,6 +16,10 @@ pub fn run(id: &str, tier: Tier) -> i32 {
         "C03" => hist_props::c03(tier),
         "C04" => hist_props::c04(tier),
         "C15" => hist_props::c15(tier),
+        "C05" => txn_props::c05(tier),
+        "C06" => txn_props::c06(tier),
+        "C07" => txn_props::c07(tier),
+        "C19" => txn_props::c19(tier),
         other => {
             println!("MACHINERY-ERROR unknown property {other}");
             2
